@@ -13,6 +13,7 @@ package majority
 
 //@ func (*MajorityBiasListener).OnCriteriaRemoved
 //@   property C07 C15 C11 C01 C09 C20
+//@   indexsafe
 //@   refines model.BiasListener.OnCriteriaRemoved with validParams=mjValid, coversId=mjCovers
 //@   ensures [rest_kept] result.(MajorityHeuristicParams).CurrentChoice == params.(MajorityHeuristicParams).CurrentChoice
 //@             && result.(MajorityHeuristicParams).RandomSeed == params.(MajorityHeuristicParams).RandomSeed
@@ -24,12 +25,14 @@ package majority
 
 //@ func (*MajorityBiasListener).OnCriterionAdded
 //@   property C07 C18 C11 C01 C09 C19 C20
+//@   indexsafe
 //@   fnparam generator ensures 0.0 <= result && result < 1.0
 //@   refines model.BiasListener.OnCriterionAdded with validParams=mjValid, coversId=mjCovers, accepts=mjAccepts, acceptsAny=mjAcceptsAny
 //@   ensures [weight_is_fraction_of_reference] model.fractionOf(result.(model.WeightType).Weights[criterion.Id], params.(MajorityHeuristicParams).Weights[referenceCriterion.Id])
 
 //@ func (*MajorityBiasListener).Merge
 //@   property C07 C18 C11 C01 C09 C19 C20
+//@   indexsafe
 //@   refines model.BiasListener.Merge with validParams=mjValid, coversId=mjCovers, accepts=mjAccepts, acceptsAny=mjAcceptsAny
 //@   ensures [rest_kept] result.(MajorityHeuristicParams).CurrentChoice == params.(MajorityHeuristicParams).CurrentChoice
 //@             && result.(MajorityHeuristicParams).RandomSeed == params.(MajorityHeuristicParams).RandomSeed
@@ -38,6 +41,7 @@ package majority
 
 //@ func (*MajorityBiasListener).RankCriteriaAscending
 //@   property C15 C07 C11 C16 C18 C19 C01 C09 C20
+//@   indexsafe
 //@   refines model.BiasListener.RankCriteriaAscending with validParams=mjValid, coversId=mjCovers, imp=mjImportance
 //@   ensures [importance_is_weight] forall k int :: 0 <= k && k < len(*result) ==> (*result)[k].Weight == params.MethodParameters.(MajorityHeuristicParams).Weights[(*result)[k].Id]
 
@@ -52,6 +56,7 @@ package majority
 
 //@ func compare
 //@   property C11 C01 C09 C20
+//@   indexsafe
 //@   ensures [scores] result0 == score(*criteriaWithWeights, *a1, *a2, len(*criteriaWithWeights)) && result1 == score(*criteriaWithWeights, *a2, *a1, len(*criteriaWithWeights))
 //@   loop 1 invariant [partial] a1Score == score(*criteriaWithWeights, *a1, *a2, iter) && a2Score == score(*criteriaWithWeights, *a2, *a1, iter)
 
@@ -62,6 +67,7 @@ package majority
 
 //@ func (*DrawAllowedResolver).Resolve
 //@   property C11 C01 C09 C20
+//@   indexsafe
 //@   ensures [joins_the_tie_group] result != nil && len(result.sameBuffer) == len(sameBuffer) + 1
 //@             && (forall k int :: 0 <= k && k < len(sameBuffer) ==> result.sameBuffer[k] == old(sameBuffer[k]))
 //@             && isRecord(result.sameBuffer[len(sameBuffer)], another, newEval, current.Id, currentEval)
@@ -69,6 +75,7 @@ package majority
 
 //@ func (*CurrentIsWinnerDrawResolver).Resolve
 //@   property C11 C01 C09 C20
+//@   indexsafe
 //@   ensures [newcomer_drops_out_alone] result != nil && len(result.worseThanCurrent) == len(worseThanCurrent) + 1
 //@             && (forall k int :: 0 <= k && k < len(worseThanCurrent) ==> result.worseThanCurrent[k] == old(worseThanCurrent[k]))
 //@             && len(result.worseThanCurrent[len(worseThanCurrent)]) == 1
@@ -77,6 +84,7 @@ package majority
 
 //@ func (*NewerIsWinnerResolver).Resolve
 //@   property C11 C01 C09 C20
+//@   indexsafe
 //@   ensures [current_group_drops_out] result != nil && len(result.worseThanCurrent) == len(worseThanCurrent) + 1
 //@             && (forall k int :: 0 <= k && k < len(worseThanCurrent) ==> result.worseThanCurrent[k] == old(worseThanCurrent[k]))
 //@             && len(result.worseThanCurrent[len(worseThanCurrent)]) == len(sameBuffer) + 1
@@ -86,6 +94,7 @@ package majority
 
 //@ func (*RandomWinnerResolver).Resolve
 //@   property C11 C01 C09 C20
+//@   indexsafe
 //@   fnparam generator ensures 0.0 <= result && result < 1.0
 //@   ensures [one_draw_decides] result != nil && (result.current == current || result.current == another) && len(result.worseThanCurrent) == len(worseThanCurrent) + 1
 //@             && (forall k int :: 0 <= k && k < len(worseThanCurrent) ==> result.worseThanCurrent[k] == old(worseThanCurrent[k]))
@@ -104,6 +113,7 @@ package majority
 
 //@ func (*Majority).takeBetter
 //@   property C11 C01 C09 C20
+//@   indexsafe
 //@   fnparam generator ensures 0.0 <= result && result < 1.0
 //@   ensures [equal_scores_are_decided_by_the_configured_policy] abs(s1 - s2) <= 0.000001 ==>
 //@             result0 == resolved(resolver, s1, s2, sameBuffer, worseThanCurrent, current, another).worseThanCurrent
@@ -131,6 +141,7 @@ package majority
 
 //@ func prepareRanking
 //@   property C01 C11 C09 C20
+//@   indexsafe
 //@   ensures [one_entry_each] result != nil && fresh(result) && len(*result) == base(ranking, len(ranking))
 //@   ensures [reverse_drop_out_order] forall g int, i int :: 0 <= g && g < len(ranking) && 0 <= i && i < len(ranking[g]) ==>
 //@             entryOf((*result)[len(*result) - 1 - (base(ranking, g) + i)], ranking, g, i)
@@ -176,23 +187,28 @@ package majority
 //@   ensures result == drawName(self)
 //@ func (*DrawAllowedResolver).Identifier
 //@   property C11 C20 C01 C03 C04 C05 C06 C07 C08 C09 C12 C13 C14 C15 C16 C17 C18 C19
+//@   indexsafe
 //@   nopanic
 //@   ensures [name] result == "allow"
 //@ func (*CurrentIsWinnerDrawResolver).Identifier
 //@   property C11 C20 C01 C03 C04 C05 C06 C07 C08 C09 C12 C13 C14 C15 C16 C17 C18 C19
+//@   indexsafe
 //@   nopanic
 //@   ensures [name] result == "current"
 //@ func (*NewerIsWinnerResolver).Identifier
 //@   property C11 C20 C01 C03 C04 C05 C06 C07 C08 C09 C12 C13 C14 C15 C16 C17 C18 C19
+//@   indexsafe
 //@   nopanic
 //@   ensures [name] result == "newer"
 //@ func (*RandomWinnerResolver).Identifier
 //@   property C11 C20 C01 C03 C04 C05 C06 C07 C08 C09 C12 C13 C14 C15 C16 C17 C18 C19
+//@   indexsafe
 //@   nopanic
 //@   ensures [name] result == "random"
 // the policy named in the request; the first registered one when none is named; an unknown name is rejected
 //@ func (*Majority).drawResolver
 //@   property C11 C20 C01 C09
+//@   indexsafe
 //@   panics_iff [unknown_policy] len(params.DrawResolution) == 0 ? len(m.drawResolvers) == 0 : !(exists k int :: 0 <= k && k < len(m.drawResolvers) && drawName(m.drawResolvers[k]) == params.DrawResolution)
 //@   ensures [by_name_default_first] len(params.DrawResolution) == 0 ? result == m.drawResolvers[0]
 //@             : (exists k int :: 0 <= k && k < len(m.drawResolvers) && result == m.drawResolvers[k] && drawName(result) == params.DrawResolution
@@ -204,20 +220,24 @@ package majority
 //@ spec mjRandom(p limited_rationality.HeuristicParams) bool = p.(*MajorityHeuristicParams).RandomAlternativesOrdering
 //@ func (*MajorityHeuristicParams).GetCurrentChoice
 //@   property C11 C01 C09 C12 C13 C14 C20
+//@   indexsafe
 //@   nopanic
 //@   refines limited_rationality.HeuristicParams.GetCurrentChoice with currentChoiceOf=mjCurrent
 //@   ensures result == m.CurrentChoice
 //@ func (*MajorityHeuristicParams).IsRandomAlternativesOrdering
 //@   property C11 C01 C09 C12 C13 C14 C20
+//@   indexsafe
 //@   nopanic
 //@   refines limited_rationality.HeuristicParams.IsRandomAlternativesOrdering with randomOrderOf=mjRandom
 //@   ensures result == m.RandomAlternativesOrdering
 //@ func (*MajorityHeuristicParams).GetRandomSeed
 //@   property C11 C01 C09
+//@   indexsafe
 //@   nopanic
 //@   ensures result == m.RandomSeed
 //@ func (*Majority).ParseParams
 //@   property C11 C20 C01 C09
+//@   indexsafe
 //@   ensures [decoded_parameters] typeis(result, MajorityHeuristicParams)
 //@             && result.(MajorityHeuristicParams).CurrentChoice == (decoded_has(dm.MethodParameters, "CurrentChoice") ? decoded_str(dm.MethodParameters, "CurrentChoice") : "")
 //@             && result.(MajorityHeuristicParams).DrawResolution == (decoded_has(dm.MethodParameters, "DrawResolution") ? decoded_str(dm.MethodParameters, "DrawResolution") : "")
@@ -227,6 +247,7 @@ package majority
 // ---- the tournament loop, one step at a time (C11, C01): the running winner meets the next alternative of the search order
 //@ func (*Majority).Evaluate
 //@   property C11 C01 C09 C20
+//@   indexsafe
 //@   fnparam .generator pure
 //@   requires [parameters] typeis(dm.MethodParameters, MajorityHeuristicParams)
 //@   returnhint [generator_seeded_with_the_requests_seed] generator == appfn(m.generator, params.RandomSeed)
@@ -245,6 +266,7 @@ package majority
 // the registered object holds exactly the collaborators it was built with, each in its own role
 //@ func NewMajority
 //@   property C11 C20 C09 C01
+//@   indexsafe
 //@   panics_iff [no_draw_policies] len(drawResolvers) == 0
 //@   ensures [wired_as_given] result != nil && fresh(result) && result.generator == generator && result.drawResolvers == drawResolvers
 
@@ -262,17 +284,20 @@ package majority
 // ---- registered names (what a request must say to select this object; what error messages list)
 //@ func (*MajorityBiasListener).Identifier
 //@   property C07 C11 C20 C01 C03 C04 C05 C06 C08 C09 C12 C13 C14 C15 C16 C17 C18 C19
+//@   indexsafe
 //@   nopanic
 //@   ensures [name] result == "majorityHeuristic"
 
 // ---- registered names (what a request must say to select this object; what error messages list)
 //@ func (*Majority).Identifier
 //@   property C01 C09 C11 C20 C03 C04 C05 C06 C07 C08 C12 C13 C14 C15 C16 C17 C18 C19
+//@   indexsafe
 //@   nopanic
 //@   ensures [name] result == "majorityHeuristic"
 
 // the parameter schema listed for this method is that of its parameter struct
 //@ func (*Majority).MethodParameters
 //@   property C20 C01 C09 C11
+//@   indexsafe
 //@   nopanic
 //@   ensures [schema_of_the_methods_parameters] typeis(result, MajorityHeuristicParams)
